@@ -1,22 +1,50 @@
-(* Percent-decoding and Unicode case folding: two strings that are valid UTF-8 and equal under strings.EqualFold
-   decode (url.unescape: "%XX" -> byte) to strings that are equal under strings.EqualFold.
-   Why validity is asked: in an invalid string a raw lead byte can be completed by ESCAPED continuation bytes
-   ("\xE2%84%AA" decodes to U+212A) while EqualFold on the raw strings saw U+FFFD there - the witness is
-   DecodeUP.invalid_utf8_decode_differs, replayed on the real code by the harness. *)
+(* Percent-decoding and case folding.  For iri.go equalFold (Model/Fold.sfold_eqb, the kernel of scanon: an invalid
+   byte stands for itself) two strings - ANY two byte strings - that are equal under the folding decode
+   (url.unescape: "%XX" -> byte) to strings that are equal under the folding: pct_decode_scanon.
+   For strings.EqualFold (ufold_eqb, ucanon: every invalid byte is U+FFFD) the same holds of strings that are valid
+   UTF-8 (pct_decode_ucanon, a corollary) and fails otherwise: a raw lead byte can be completed by ESCAPED
+   continuation bytes ("\xE2%84%AA" decodes to U+212A) while EqualFold on the raw strings saw U+FFFD there - the
+   witness is invalid_utf8_decode_differs, which is what made the pinned IRI.Equals non-transitive. *)
 From AP.Model Require Import Prelude Bytes Url IriEq IriNf Vocab Pred CollIri Utf8 FoldTab Fold.
-From AP.Proofs Require Import NlvP LowerP IriEqP SortP IriGenP IriNfP IriXP CollIriP Utf8P FoldP.
+From AP.Proofs Require Import NlvP LowerP IriEqP SortP IriGenP IriNfP IriXP CollIriP Utf8P FoldP CleanUP.
 
-Lemma valid_chunk' c r : utf8_valid (c :: r) = true ->
-  exists ch0 rest x, r = ch0 ++ rest /\ utf8_valid (c :: ch0) = true /\ utf8_valid rest = true /\ runes (c :: ch0) = [x]
-    /\ length rest <= length r /\ is_cont c = false
-    /\ ((is_asciib c = true /\ ch0 = [] /\ x = byteN c)
-        \/ ((128 <= x)%N /\ forallb (fun b => negb (is_asciib b)) (c :: ch0) = true)).
+(* a string begins with a complete rune, or with a byte that is not UTF-8 where it stands *)
+Lemma head_chunk c r :
+  (exists ch0 rest x, r = ch0 ++ rest /\ utf8_valid (c :: ch0) = true /\ srunes (c :: ch0) = [x] /\ is_cont c = false
+     /\ (x < rune_limit)%N
+     /\ ((is_asciib c = true /\ ch0 = [] /\ x = byteN c)
+         \/ ((128 <= x)%N /\ forallb (fun b => negb (is_asciib b)) (c :: ch0) = true)))
+  \/ (srunes (c :: r) = strict_err c :: srunes r /\ is_asciib c = false).
 Proof.
-  intros H. destruct (valid_chunk c r H) as [ch [rest [x [E [V1 [V2 [R [L [C D]]]]]]]]].
-  destruct ch as [|c0 ch0]; [discriminate|]. simpl in E. inversion E; subst c0 r.
-  exists ch0, rest, x. repeat split; try assumption.
-  - rewrite app_length. lia.
-  - destruct D as [[A [E1 E2]]|D]; [left|right; exact D]. inversion E1. auto.
+  unfold srunes. rewrite runes_cons.
+  assert (NA : (match lead_of c with LAscii => false | _ => true end) = true -> is_asciib c = false) by apply lead_multi_nonascii.
+  destruct (lead_of c) as [| | |lo hi|lo hi] eqn:L.
+  - left. exists [], r, (byteN c). split; [reflexivity|]. split; [rewrite utf8_valid_cons, L; reflexivity|].
+    split; [rewrite runes_cons, L; reflexivity|]. split; [apply lead_not_cont; rewrite L; reflexivity|].
+    split; [pose proof (Byte.to_N_bounded c); unfold byteN, rune_limit; lia|].
+    left. split; [apply lead_ascii_inv; exact L|]. split; reflexivity.
+  - right. split; [reflexivity|apply NA; reflexivity].
+  - destruct r as [|b1 r1]; [right; split; [reflexivity|apply NA; reflexivity]|].
+    destruct (is_cont b1) eqn:H1; [|right; split; [reflexivity|apply NA; reflexivity]].
+    left. exists [b1], r1, (rune2 c b1). split; [reflexivity|]. split; [rewrite utf8_valid_cons, L, H1; reflexivity|].
+    split; [rewrite runes_cons, L, H1; reflexivity|]. split; [apply lead_not_cont; rewrite L; reflexivity|].
+    split; [apply rune2_limit; exact L|]. right. split; [apply rune2_big; exact L|]. cbn [forallb].
+    rewrite (NA eq_refl), (cont_nonascii b1 H1). reflexivity.
+  - destruct r as [|b1 [|b2 r2]]; try (right; split; [reflexivity|apply NA; reflexivity]).
+    destruct (is_cont b1 && in_rng lo hi b1 && is_cont b2) eqn:H; [|right; split; [reflexivity|apply NA; reflexivity]].
+    pose proof H as H'. apply andb_true_iff in H. destruct H as [H H3]. apply andb_true_iff in H. destruct H as [H1 H2].
+    left. exists [b1; b2], r2, (rune3 c b1 b2). split; [reflexivity|]. split; [rewrite utf8_valid_cons, L, H'; reflexivity|].
+    split; [rewrite runes_cons, L, H'; reflexivity|]. split; [apply lead_not_cont; rewrite L; reflexivity|].
+    split; [apply (rune3_limit c b1 b2 lo hi L)|]. right. split; [apply (rune3_big c b1 b2 lo hi L H2)|]. cbn [forallb].
+    rewrite (NA eq_refl), (cont_nonascii b1 H1), (cont_nonascii b2 H3). reflexivity.
+  - destruct r as [|b1 [|b2 [|b3 r3]]]; try (right; split; [reflexivity|apply NA; reflexivity]).
+    destruct (is_cont b1 && in_rng lo hi b1 && is_cont b2 && is_cont b3) eqn:H; [|right; split; [reflexivity|apply NA; reflexivity]].
+    pose proof H as H'. apply andb_true_iff in H. destruct H as [H H4]. apply andb_true_iff in H. destruct H as [H H3].
+    apply andb_true_iff in H. destruct H as [H1 H2].
+    left. exists [b1; b2; b3], r3, (rune4 c b1 b2 b3). split; [reflexivity|]. split; [rewrite utf8_valid_cons, L, H'; reflexivity|].
+    split; [rewrite runes_cons, L, H'; reflexivity|]. split; [apply lead_not_cont; rewrite L; reflexivity|].
+    split; [apply (rune4_limit c b1 b2 b3 lo hi L H2)|]. right. split; [apply (rune4_big c b1 b2 b3 lo hi L H2)|]. cbn [forallb].
+    rewrite (NA eq_refl), (cont_nonascii b1 H1), (cont_nonascii b2 H3), (cont_nonascii b3 H4). reflexivity.
 Qed.
 
 Lemma pct_go_lacks ch : forall rest d, lacks pct ch = true -> pct_go P0 (ch ++ rest) = Some d ->
@@ -51,88 +79,125 @@ Proof.
   apply beqb_eq in E. subst x. discriminate.
 Qed.
 
-Lemma ucanon_single ch x : runes ch = [x] -> ucanon ch = [canon_with fold_tab x].
-Proof. unfold ucanon, ucanon_with. intros ->. reflexivity. Qed.
+Lemma scanon_single ch x : srunes ch = [x] -> scanon ch = [canon x].
+Proof. unfold scanon, scanon_with. intros ->. reflexivity. Qed.
 
-Lemma decode_ucanon_n n : forall rp rp' acc d d',
-  length rp <= n -> utf8_valid rp = true -> utf8_valid rp' = true -> ucanon rp = ucanon rp' ->
-  pct_go P0 rp = Some d -> pct_go P0 rp' = Some d' -> ucanon (acc ++ d) = ucanon (acc ++ d').
+Lemma scanon_bad c r : srunes (c :: r) = strict_err c :: srunes r -> scanon (c :: r) = strict_err c :: scanon r.
 Proof.
-  induction n as [|n IH]; intros rp rp' acc d d' Hl V V' E D D'.
-  - destruct rp; [|simpl in Hl; lia]. symmetry in E. apply (ucanon_nil fold_tab) in E. subst rp'.
-    simpl in D, D'. inversion D; inversion D'. reflexivity.
-  - destruct rp as [|c r].
-    { symmetry in E. apply (ucanon_nil fold_tab) in E. subst rp'. simpl in D, D'. inversion D; inversion D'. reflexivity. }
-    destruct rp' as [|c' r']; [apply (ucanon_nil fold_tab) in E; discriminate|].
-    destruct (valid_chunk' c r V) as [ch0 [rest [x [Er [V1 [V2 [R [L [C Dj]]]]]]]]].
-    destruct (valid_chunk' c' r' V') as [ch0' [rest' [x' [Er' [V1' [V2' [R' [L' [C' Dj']]]]]]]]].
-    assert (Erp : c :: r = (c :: ch0) ++ rest) by (rewrite Er; reflexivity).
-    assert (Erp' : c' :: r' = (c' :: ch0') ++ rest') by (rewrite Er'; reflexivity).
-    rewrite Erp, Erp' in E. unfold ucanon in E. rewrite !(ucanon_app_valid fold_tab) in E by assumption.
-    fold ucanon in E. rewrite (ucanon_single _ x R), (ucanon_single _ x' R') in E.
-    inversion E as [[Ex Erest]]. simpl in Hl.
-    destruct (Byte.eqb c pct) eqn:Ec.
-    + (* an escape *)
-      apply beqb_eq in Ec. subst c.
-      destruct Dj as [[_ [E0 Ex0]]|[B _]].
-      2:{ exfalso. rewrite runes_cons in R. change (lead_of pct) with LAscii in R. inversion R. subst x. vm_compute in B. apply B. reflexivity. }
-      subst ch0 x. simpl in Er. subst rest.
-      assert (x' = byteN pct) as Ex'.
-      { apply (canon_delim fold_tab fold_tab_is_ok (byteN pct) x' pct_is_delim). rewrite <- Ex. apply (canon_delim_fixed fold_tab fold_tab_is_ok pct pct_is_delim). }
-      destruct Dj' as [[A' [E0' Ex0']]|[B' _]].
-      2:{ exfalso. rewrite Ex' in B'. vm_compute in B'. apply B'. reflexivity. }
-      subst ch0'. rewrite Ex' in Ex0'. apply byteN_inj in Ex0'. subst c'. simpl in Er'. subst rest'.
-      (* both continue with two hex digits *)
-      simpl in D, D'.
-      destruct r as [|h r1]; [discriminate|]. simpl in D. destruct (is_hex h) eqn:Hh; [|discriminate].
-      destruct r1 as [|l r2]; [discriminate|]. simpl in D. destruct (is_hex l) eqn:Hl2; [|discriminate].
-      destruct (pct_go P0 r2) as [d2|] eqn:D2; [|discriminate]. inversion D; subst d.
-      destruct r' as [|h' r1']; [discriminate|]. simpl in D'. destruct (is_hex h') eqn:Hh'; [|discriminate].
-      destruct r1' as [|l' r2']; [discriminate|]. simpl in D'. destruct (is_hex l') eqn:Hl2'; [|discriminate].
-      destruct (pct_go P0 r2') as [d2'|] eqn:D2'; [|discriminate]. inversion D'; subst d'.
-      pose proof (hex_ascii h Hh) as Ah. pose proof (hex_ascii l Hl2) as Al.
-      pose proof (hex_ascii h' Hh') as Ah'. pose proof (hex_ascii l' Hl2') as Al'.
-      unfold ucanon in Erest. rewrite !(ucanon_cons_ascii fold_tab) in Erest by assumption.
-      inversion Erest as [[Eh El Er2]].
-      assert (unhex2 h l = unhex2 h' l') as Eu.
-      { unfold unhex2. rewrite (hexv_canon h h' Hh Hh' Eh), (hexv_canon l l' Hl2 Hl2' El). reflexivity. }
-      rewrite Eu.
-      assert (Vr2 : utf8_valid r2 = true).
-      { rewrite !utf8_valid_cons, (lead_ascii h Ah), (lead_ascii l Al) in V2. exact V2. }
-      assert (Vr2' : utf8_valid r2' = true).
-      { rewrite !utf8_valid_cons, (lead_ascii h' Ah'), (lead_ascii l' Al') in V2'. exact V2'. }
-      replace (acc ++ unhex2 h' l' :: d2) with ((acc ++ [unhex2 h' l']) ++ d2) by (rewrite <- app_assoc; reflexivity).
-      replace (acc ++ unhex2 h' l' :: d2') with ((acc ++ [unhex2 h' l']) ++ d2') by (rewrite <- app_assoc; reflexivity).
-      apply (IH r2 r2'); try assumption. simpl in Hl. lia.
-    + (* a rune that is not "%" *)
-      assert (Lp : lacks pct (c :: ch0) = true).
-      { destruct Dj as [[_ [E0 _]]|[_ NA]]; [subst ch0; simpl; rewrite Ec; reflexivity|apply nonascii_lacks_pct; exact NA]. }
-      assert (Nx : x <> byteN pct).
-      { destruct Dj as [[_ [_ Ex0]]|[B _]].
-        - subst x. intros Q. apply byteN_inj in Q. subst c. rewrite beqb_refl in Ec. discriminate.
-        - intros Q. subst x. vm_compute in B. apply B. reflexivity. }
-      assert (Nx' : x' <> byteN pct).
-      { intros Q. apply Nx. apply (canon_delim fold_tab fold_tab_is_ok (byteN pct) x pct_is_delim).
-        rewrite Ex, Q. apply (canon_delim_fixed fold_tab fold_tab_is_ok pct pct_is_delim). }
-      assert (Lp' : lacks pct (c' :: ch0') = true).
-      { destruct Dj' as [[_ [E0 Ex0]]|[_ NA]]; [|apply nonascii_lacks_pct; exact NA].
-        subst ch0'. simpl. destruct (Byte.eqb c' pct) eqn:Ec'; [|reflexivity].
-        apply beqb_eq in Ec'. subst c'. congruence. }
-      rewrite Erp in D. rewrite Erp' in D'.
-      destruct (pct_go_lacks _ _ _ Lp D) as [d0 [D0 Ed]]. destruct (pct_go_lacks _ _ _ Lp' D') as [d0' [D0' Ed']].
-      subst d d'.
-      unfold ucanon. rewrite !(ucanon_app_sync fold_tab acc) by (simpl; assumption).
-      rewrite !(ucanon_app_valid fold_tab (_ :: _)) by assumption. fold ucanon.
-      rewrite (ucanon_single _ x R), (ucanon_single _ x' R'), Ex. do 2 f_equal.
-      apply (IH rest rest' [] d0 d0'); try assumption. lia.
+  unfold scanon, scanon_with. intros ->. cbn [map]. f_equal. apply (canon_above fold_tab fold_tab_is_ok).
+  unfold strict_err. lia.
 Qed.
 
+Lemma strict_err_inj c c' : strict_err c = strict_err c' -> c = c'.
+Proof. unfold strict_err. intros H. apply byteN_inj. lia. Qed.
+
+Lemma strict_err_limit c : (rune_limit <= strict_err c)%N.
+Proof. unfold strict_err. lia. Qed.
+
+Lemma decode_scanon_n n : forall rp rp' acc d d',
+  length rp <= n -> scanon rp = scanon rp' ->
+  pct_go P0 rp = Some d -> pct_go P0 rp' = Some d' -> scanon (acc ++ d) = scanon (acc ++ d').
+Proof.
+  induction n as [|n IH]; intros rp rp' acc d d' Hl E D D'.
+  - destruct rp; [|simpl in Hl; lia]. symmetry in E. apply uc_nil in E. subst rp'.
+    simpl in D, D'. inversion D; inversion D'. reflexivity.
+  - destruct rp as [|c r].
+    { symmetry in E. apply uc_nil in E. subst rp'. simpl in D, D'. inversion D; inversion D'. reflexivity. }
+    destruct rp' as [|c' r']; [apply uc_nil in E; discriminate|]. simpl in Hl.
+    destruct (head_chunk c r) as [[ch0 [rest [x [Er [V1 [R [C [Lx Dj]]]]]]]]|[Bd NA]];
+      destruct (head_chunk c' r') as [[ch0' [rest' [x' [Er' [V1' [R' [C' [Lx' Dj']]]]]]]]|[Bd' NA']].
+    + (* a complete rune on both sides *)
+      assert (Erp : c :: r = (c :: ch0) ++ rest) by (rewrite Er; reflexivity).
+      assert (Erp' : c' :: r' = (c' :: ch0') ++ rest') by (rewrite Er'; reflexivity).
+      rewrite Erp, Erp' in E. rewrite !uc_app_valid in E by assumption.
+      rewrite (scanon_single _ x R), (scanon_single _ x' R') in E.
+      inversion E as [[Ex Erest]].
+      assert (Lrest : length rest <= length r) by (rewrite Er, app_length; lia).
+      destruct (Byte.eqb c pct) eqn:Ec.
+      * (* an escape *)
+        apply beqb_eq in Ec. subst c.
+        destruct Dj as [[_ [E0 Ex0]]|[B _]].
+        2:{ exfalso. unfold srunes in R. rewrite runes_cons in R. change (lead_of pct) with LAscii in R. inversion R. subst x. vm_compute in B. apply B. reflexivity. }
+        subst ch0 x. simpl in Er. subst rest.
+        assert (x' = byteN pct) as Ex'.
+        { apply (canon_delim_byte pct x' pct_is_delim). rewrite <- Ex. apply (canon_delim_self pct pct_is_delim). }
+        destruct Dj' as [[A' [E0' Ex0']]|[B' _]].
+        2:{ exfalso. rewrite Ex' in B'. vm_compute in B'. apply B'. reflexivity. }
+        subst ch0'. rewrite Ex' in Ex0'. apply byteN_inj in Ex0'. subst c'. simpl in Er'. subst rest'.
+        (* both continue with two hex digits *)
+        simpl in D, D'.
+        destruct r as [|h r1]; [discriminate|]. simpl in D. destruct (is_hex h) eqn:Hh; [|discriminate].
+        destruct r1 as [|l r2]; [discriminate|]. simpl in D. destruct (is_hex l) eqn:Hl2; [|discriminate].
+        destruct (pct_go P0 r2) as [d2|] eqn:D2; [|discriminate]. inversion D; subst d.
+        destruct r' as [|h' r1']; [discriminate|]. simpl in D'. destruct (is_hex h') eqn:Hh'; [|discriminate].
+        destruct r1' as [|l' r2']; [discriminate|]. simpl in D'. destruct (is_hex l') eqn:Hl2'; [|discriminate].
+        destruct (pct_go P0 r2') as [d2'|] eqn:D2'; [|discriminate]. inversion D'; subst d'.
+        pose proof (hex_ascii h Hh) as Ah. pose proof (hex_ascii l Hl2) as Al.
+        pose proof (hex_ascii h' Hh') as Ah'. pose proof (hex_ascii l' Hl2') as Al'.
+        rewrite !uc_cons_ascii in Erest by assumption.
+        inversion Erest as [[Eh El Er2]].
+        assert (unhex2 h l = unhex2 h' l') as Eu.
+        { unfold unhex2. rewrite (hexv_canon h h' Hh Hh' Eh), (hexv_canon l l' Hl2 Hl2' El). reflexivity. }
+        rewrite Eu.
+        replace (acc ++ unhex2 h' l' :: d2) with ((acc ++ [unhex2 h' l']) ++ d2) by (rewrite <- app_assoc; reflexivity).
+        replace (acc ++ unhex2 h' l' :: d2') with ((acc ++ [unhex2 h' l']) ++ d2') by (rewrite <- app_assoc; reflexivity).
+        apply (IH r2 r2'); try assumption. simpl in Hl. lia.
+      * (* a rune that is not "%" *)
+        assert (Lp : lacks pct (c :: ch0) = true).
+        { destruct Dj as [[_ [E0 _]]|[_ NA]]; [subst ch0; simpl; rewrite Ec; reflexivity|apply nonascii_lacks_pct; exact NA]. }
+        assert (Nx : x <> byteN pct).
+        { destruct Dj as [[_ [_ Ex0]]|[B _]].
+          - subst x. intros Q. apply byteN_inj in Q. subst c. rewrite beqb_refl in Ec. discriminate.
+          - intros Q. subst x. vm_compute in B. apply B. reflexivity. }
+        assert (Nx' : x' <> byteN pct).
+        { intros Q. apply Nx. apply (canon_delim_byte pct x pct_is_delim).
+          rewrite Ex, Q. apply (canon_delim_self pct pct_is_delim). }
+        assert (Lp' : lacks pct (c' :: ch0') = true).
+        { destruct Dj' as [[_ [E0 Ex0]]|[_ NA]]; [|apply nonascii_lacks_pct; exact NA].
+          subst ch0'. simpl. destruct (Byte.eqb c' pct) eqn:Ec'; [|reflexivity].
+          apply beqb_eq in Ec'. subst c'. congruence. }
+        rewrite Erp in D. rewrite Erp' in D'.
+        destruct (pct_go_lacks _ _ _ Lp D) as [d0 [D0 Ed]]. destruct (pct_go_lacks _ _ _ Lp' D') as [d0' [D0' Ed']].
+        subst d d'.
+        rewrite !(uc_app_sync acc) by (simpl; assumption).
+        rewrite !(uc_app_valid (_ :: _)) by assumption.
+        rewrite (scanon_single _ x R), (scanon_single _ x' R'), Ex. do 2 f_equal.
+        apply (IH rest rest' [] d0 d0'); try assumption. lia.
+    + (* a rune against a byte that is not UTF-8: their canonical forms differ *)
+      exfalso. rewrite (scanon_bad c' r' Bd') in E.
+      assert (Erp : c :: r = (c :: ch0) ++ rest) by (rewrite Er; reflexivity).
+      rewrite Erp, uc_app_valid, (scanon_single _ x R) in E by assumption. cbn [app] in E. injection E as Ex _.
+      pose proof (canon_limit fold_tab fold_tab_is_ok x Lx) as Q. fold canon in Q. rewrite Ex in Q.
+      pose proof (strict_err_limit c'). lia.
+    + exfalso. rewrite (scanon_bad c r Bd) in E.
+      assert (Erp' : c' :: r' = (c' :: ch0') ++ rest') by (rewrite Er'; reflexivity).
+      rewrite Erp', uc_app_valid, (scanon_single _ x' R') in E by assumption. cbn [app] in E. injection E as Ex _.
+      pose proof (canon_limit fold_tab fold_tab_is_ok x' Lx') as Q. fold canon in Q. rewrite <- Ex in Q.
+      pose proof (strict_err_limit c). lia.
+    + (* the same invalid byte on both sides: it is copied, and may complete or be completed after decoding *)
+      rewrite (scanon_bad c r Bd), (scanon_bad c' r' Bd') in E. inversion E as [[Ec Er]].
+      apply strict_err_inj in Ec. subst c'.
+      assert (Lp : lacks pct [c] = true) by (apply nonascii_lacks_pct; simpl; rewrite NA; reflexivity).
+      change (c :: r) with ([c] ++ r) in D. change (c :: r') with ([c] ++ r') in D'.
+      destruct (pct_go_lacks _ _ _ Lp D) as [d0 [D0 Ed]]. destruct (pct_go_lacks _ _ _ Lp D') as [d0' [D0' Ed']].
+      subst d d'. rewrite !app_assoc. apply (IH r r'); try assumption. lia.
+Qed.
+
+(* iri.go equalFold: ALL byte strings *)
+Theorem pct_decode_scanon rp rp' d d' :
+  scanon rp = scanon rp' -> pct_decode rp = Some d -> pct_decode rp' = Some d' -> scanon d = scanon d'.
+Proof. intros E D D'. exact (decode_scanon_n (length rp) rp rp' [] d d' (Nat.le_refl _) E D D'). Qed.
+
+(* strings.EqualFold: valid UTF-8 (the decoded strings need not be valid) *)
 Theorem pct_decode_ucanon rp rp' d d' :
   utf8_valid rp = true -> utf8_valid rp' = true -> ucanon rp = ucanon rp' ->
   pct_decode rp = Some d -> pct_decode rp' = Some d' -> ucanon d = ucanon d'.
-Proof. intros V V' E D D'. exact (decode_ucanon_n (length rp) rp rp' [] d d' (Nat.le_refl _) V V' E D D'). Qed.
+Proof.
+  intros V V' E D D'. rewrite <- (scanon_valid rp V), <- (scanon_valid rp' V') in E.
+  rewrite !ucanon_collapse, (pct_decode_scanon rp rp' d d' E D D'). reflexivity.
+Qed.
 
-(* without validity the statement fails *)
+(* ... and only there *)
 Lemma invalid_utf8_decode_differs :
   exists rp rp' d d', ucanon rp = ucanon rp' /\ pct_decode rp = Some d /\ pct_decode rp' = Some d' /\ ucanon d <> ucanon d'
     /\ utf8_valid rp = false.
@@ -140,3 +205,6 @@ Proof.
   exists (hx "e2253834256161"), (hx "efbfbd253834254141"), (hx "e284aa"), (hx "efbfbd84aa").
   repeat split; try (vm_compute; reflexivity). vm_compute. discriminate.
 Qed.
+(* the same strings under equalFold: already the raw strings differ *)
+Lemma invalid_utf8_decode_repaired : scanon (hx "e2253834256161") <> scanon (hx "efbfbd253834254141").
+Proof. vm_compute. discriminate. Qed.
